@@ -261,7 +261,7 @@ def _stored_layout(it, cls):
     return sig[0][3], noi[0][3], sig[0][1]
 
 
-def rule_numeric_storage(ctx):
+def rule_numeric_storage(ctx, rule="C01.4", classes=None):
     """a signal container holds numbers: 0/1 text (str2array reads it as a bool bit pattern) and boolean arrays are promoted to a
     numeric dtype before they are stored - numpy's bool arithmetic is logical (+ is OR, - raises), so the sum / difference laws
     of the statement fail on such operands. Decided on the value stored for `signal` when no dtype is given: one alternative of
@@ -277,7 +277,7 @@ def rule_numeric_storage(ctx):
             if a[0] == "fn" and a[1] == "astype" and len(a[2]) == 2 and numeric(a[2][1]):
                 return True
         return False
-    for cls in CLASSES:
+    for cls in (classes or CLASSES):
         m = pkg.find_method("typing", cls, "__init__")
         for kind in ("text", "array"):
             it = Interp(pkg, self_class=cls, assumptions={"signal": ("inst", "str") if kind == "text" else ("notinst", "str"), "noise": None, "dtype": None, "signal.ndim": 1})
@@ -286,9 +286,24 @@ def rule_numeric_storage(ctx):
             r = _stored_layout(it, cls)
             case = f"{cls}(signal given as {kind}, no dtype): boolean data stored as numbers"
             if r is None or not isinstance(r[0], Form):
-                ctx.unknown("C01.4", m, m.node, case, "stored signal not identified")
+                ctx.unknown(rule, m, m.node, case, "stored signal not identified")
                 continue
-            ctx.check("C01.4", promoted(r[0]), m, r[2], case, "an astype to a numeric type on the path to the stored array",
+            if kind == "array":
+                # both components given as boolean data: np.result_type(bool, bool) is bool, so neither promotes the other - each needs
+                # its own way to a numeric type (a bool noise next to an int signal adds as a logical OR in x + y and raises in x - y)
+                it2 = Interp(pkg, self_class=cls, assumptions={"signal": ("notinst", "str"), "noise": ("notinst", "str"), "dtype": None, "signal.ndim": 1, "noise.ndim": 1})
+                it2.keep_astype = True
+                it2.run(m)
+                r2 = _stored_layout(it2, cls)
+                case2 = f"{cls}(signal and noise given, no dtype): boolean data stored as numbers in both components"
+                if r2 is None or not isinstance(r2[0], Form) or not isinstance(r2[1], Form):
+                    ctx.unknown(rule, m, m.node, case2, "stored arrays not identified")
+                else:
+                    lacking = [nm for nm, v_ in (("signal", r2[0]), ("noise", r2[1])) if not promoted(v_)]
+                    ctx.check(rule, not lacking, m, r2[2], case2, "an astype to a numeric type on the way to each stored array",
+                              f"the array stored for `{lacking[0] if lacking else ''}` reaches the object without a cast to a numeric type when both components are boolean (0/1 text, lists of bools): "
+                              "result_type(bool, bool) is bool, the component stays a bool array and x + y combines it as a logical OR (total field 3 where the operands' sum to 4), x - y raises TypeError")
+            ctx.check(rule, promoted(r[0]), m, r[2], case, "an astype to a numeric type on the path to the stored array",
                       f"the array stored for `signal` is {short(r[0], 140)}: " + ("0/1 text parsed by str2array is a bool array" if kind == "text" else "a list or array of booleans stays bool") +
                       " and is stored as it is - '1 1 0' + '1 0 1' is then the logical OR, '-' raises TypeError and signal+noise never reaches 2")
 
